@@ -424,7 +424,7 @@ Definition check_case (c : Z * Z * list (Z * Z) * list Z * (Z * Z) * Z * Z) : bo
             bnd = sorted(x for x in bnd if 0 <= x < n)
             if not thorough:
                 bnd = rng.sample(bnd, min(len(bnd), 40 if k > 1 else 70))
-            lens = sorted({x for x in ess if 0 <= x < n} | set(bnd) | {rng.randrange(n) for _ in range(2000 if thorough else 30)})
+            lens = sorted({x for x in ess if 0 <= x < n} | set(bnd) | {rng.randrange(n) for _ in range(6000 if thorough else 30)})
         for ln in lens:
             add(k, "trunc", trunc=ln)
         # appended bytes
@@ -512,6 +512,13 @@ Definition check_case (c : Z * Z * list (Z * Z) * list Z * (Z * Z) * Z * Z) : bo
                     e = nel - 1
                 add(k, "ref", patches=setint(first + 4 * e, v, 4), dump=1, fwd=1 if (k >= 2 and (thorough or rng.random() < 0.3)) else 0,
                     info=(name, e, v))
+        # fixed corpus (both tiers, independent of the seed): -1 in references that have no "none" value
+        if k == 2:
+            for name, e, fw in (("M_rowadr", 11, 1), ("body_parentid", 3, 0), ("jnt_bodyid", 1, 0), ("geom_bodyid", 2, 0),
+                                ("dof_Madr", 3, 0), ("name_bodyadr", 1, 0), ("B_rowadr", 2, 0)):
+                ai = aidx.get(name)
+                if ai is not None and im.arrays[ai][1] >= 4 * (e + 1):
+                    add(k, "ref", patches=setint(im.offs[ai][0] + 4 * e, -1, 4), dump=1, fwd=fw, info=(name, e, -1))
         # random bytes in header+sizes, and anywhere
         for rep in range(300 if thorough else 40):
             kb = rng.randrange(1, 5)
